@@ -28,19 +28,21 @@ BATCH_LIMITS = [None, None, None, 0, 1, 2, 3, 4, 6, '-1', '0', '0', '+1']
 
 def dispatch_case(registry_kind: str = 'std'):
     """strategy of dispatch case specs over the standard registry (shared with C02, C03, C11, C13)"""
-    def for_kind(kind: str):
-        reg = stdreg.std_registry(kind)
+    def for_kind(kind: str, plain: bool = False):
+        reg = stdreg.std_registry('sync' if plain else kind)
         return st.builds(
-            lambda text, beh, mbs, codec: {'dispatcher': kind, 'max_batch_size': batch_limit(text, mbs), 'behaviours': beh, 'text': text, 'codec': codec,
+            lambda text, beh, mbs, codec: {'dispatcher': kind, 'plain': plain, 'max_batch_size': batch_limit(text, mbs), 'behaviours': beh, 'text': text, 'codec': codec,
                                            'logging': 'debug' if (len(beh) + (mbs is None)) % 3 == 0 else 'off'},
             docs.document(reg), stdreg.behaviours(True), st.sampled_from(BATCH_LIMITS), st.sampled_from(CODEC_CHOICES),
         )
-    return st.one_of(for_kind('sync'), for_kind('async'))
+    return st.one_of(for_kind('sync'), for_kind('async'), for_kind('async', True))
 
 
 def doc_classes(spec: Any, exp: ref.Expectation) -> list:
     ts = spec['text']
     classes = [exp.klass, f"dispatcher/{spec['dispatcher']}"]
+    if spec.get('plain'):
+        classes.append('dispatcher/async-serving-plain-functions')
     if ts.get('huge'):
         classes.append('huge-literal')
     if 'doc' in ts and docs.doc_depth(ts['doc']) >= 32:
@@ -83,7 +85,7 @@ class C01(Check):
         'doc/not-json', 'doc/json-scalar', 'doc/invalid-request-object', 'doc/single-call', 'doc/single-notification',
         'doc/batch-accepted', 'doc/batch-accepted/all-notifications', 'doc/batch-rejected/empty', 'doc/batch-rejected/invalid-element',
         'doc/batch-rejected/duplicate-ids', 'doc/batch-rejected/too-large', 'huge-literal', 'depth>=32',
-        'call/raises-exception', 'call/raises-protocol-error', 'notification/raises-exception', 'dispatcher/sync', 'dispatcher/async',
+        'call/raises-exception', 'call/raises-protocol-error', 'notification/raises-exception', 'dispatcher/sync', 'dispatcher/async', 'dispatcher/async-serving-plain-functions',
         'codec/classes', 'codec/functions', 'logging/debug',
     ]
 
@@ -124,6 +126,13 @@ class C01(Check):
                 {**base, 'text': t({'jsonrpc': '2.0', 'id': 1, 'method': 'rpc_err'}),
                  'behaviours': {'rpc_err': {'kind': 'raise_rpc', 'error': {'cls': 'JsonRpcError', 'code': 0, 'message': '', 'data': {'absent': True}}}}},
             ]
+        # every scripted exception type once per way of serving it: sync dispatcher, async dispatcher + coroutines, async dispatcher +
+        # plain functions (as a call next to a notification)
+        for kind, plain in (('sync', False), ('async', False), ('async', True)):
+            for exc in dict.fromkeys(stdreg.EXC_NAMES):
+                beh = {'boom': {'kind': 'raise_exc', 'exc': exc, 'marker': 'MARKER-c01-zq'}}
+                out.append({'dispatcher': kind, 'plain': plain, 'max_batch_size': None, 'behaviours': beh,
+                            'text': t([{'jsonrpc': '2.0', 'id': 1, 'method': 'boom'}, {'jsonrpc': '2.0', 'method': 'boom'}])})
         return out
 
     def run_case(self, spec: Any) -> Outcome:
